@@ -1,8 +1,10 @@
 //! swiftness_air compiled WITHOUT its `std` feature: the same exhaustive C12 monitor as hfull's
 //! `domains` command, against the no-std build of the crate (code under `cfg(not(feature = "std"))`
-//! is otherwise never executed by any other leg).
+//! is otherwise never executed by any other leg). It is also the only SINGLE-LAYOUT build (recursive
+//! only, no `dynamic` feature): `pistatic` runs a C13 binding monitor there.
 #[path = "../../hfull/src/domains.rs"]
 mod domains;
+mod pistatic;
 
 use vcommon::report::Args;
 
@@ -12,6 +14,7 @@ fn main() {
     let t0 = std::time::Instant::now();
     let mut rep = match args.cmd.as_str() {
         "domains" => domains::run(&args),
+        "pistatic" => pistatic::run(&args),
         other => {
             eprintln!("unknown command {other:?}");
             std::process::exit(3);
